@@ -65,30 +65,47 @@ class C16(Prop):
             "(thorough: <= 6 and <= 5) with 2 waiters, up to renaming, on a real Tracer with waiters parked in the real Await on real "
             "contexts, plus random sequences of length 6-14; c16.builder: EVERY sequence of add/build of length <= 5 (thorough 6) over "
             "11 actions (8 event kinds, nil/non-nil errors, build) on named client and server builders, <= 3 on unnamed ones, plus random "
-            "sequences up to length 12; compared: waiter outcomes + per-name view, collector calls (count, name, Err, events with "
-            "indices), and that nothing delivered changes afterwards. extra: free-running goroutines under the race detector "
-            "(quick: tracer+builder hand-off rounds; thorough: TracingRoundTripper/TracingHandler over loopback HTTP/1.1 and h2, "
-            "cancellation racing body end, checking once_per_op / frozen / indices only)")
+            "sequences up to length 12; c16.bfine: add/build as critical section + collector call held by a gating Collector, every "
+            "script of length <= 4 (thorough 5) + random; compared: waiter outcomes + per-name view, collector calls (count, name, Err, "
+            "events with indices), held goroutines, and that nothing delivered changes afterwards. extra (quick AND thorough), "
+            "FREE-RUNNING: TestVerifC16Free runs 2-4 goroutines with random scripts of builder events (body data, body end with/without "
+            "error, response start/error, cancel, build) on one real builder, and 1-3 waiters + 1-3 mutators (Init/Complete/Clear) on one "
+            "real Tracer, started by a barrier or by a sync.Mutex hand-off chain; it records configuration + observed outcome and the "
+            "extracted model decides whether SOME interleaving of the critical sections gives exactly that outcome (ballowed/tallowed, "
+            "theorems builder_allowed_iff / tracer_allowed_iff / accepted_calls_sound); quick: 3000+2500 rounds plain and 1000+1000 rounds "
+            "in the race-enabled binary (any race-detector report = VIOLATION, clause 'without data races'), plus TestVerifC16Race; "
+            "thorough adds TracingRoundTripper/TracingHandler over loopback HTTP/1.1 and h2 under -race")
     trusted_base = ("Coq 8.16.1 kernel (vm_compute used, native_compute not)", "extraction (ExtrOcamlBasic only) + ocaml/driver.ml",
                     "vlib generators/comparator, Go overlay harness (harness/C16)",
                     "modelled not verified: Go mutex / channel close / select semantics (one action per lock region; a closed "
-                    "done channel wakes every goroutine selecting on it), context cancellation")
+                    "done channel wakes every goroutine selecting on it), context cancellation",
+                    "free-running runs: the Go race detector (cgo build), the runtime's goroutine dump used to see that a waiter is "
+                    "parked in its select before its context is ended")
     assumptions = ("each Tracer/builder method body is one critical section, so every interleaving of goroutines is a list of "
-                   "model actions (true by inspection: all state is accessed under t.mu / b.mu, except the read of result.trace "
-                   "after <-done, which is ordered by the channel close)",
+                   "model actions (by inspection: all state is accessed under t.mu / b.mu, except the read of result.trace "
+                   "after <-done, which is ordered by the channel close); for the builder the finer grain (critical section, then "
+                   "collector call after the unlock) is modelled too and PROVED equivalent because the trace is taken and cleared "
+                   "inside the lock (two_step_add); the free-running runs test this assumption on every check: an outcome that no "
+                   "interleaving of whole critical sections explains is a VIOLATION",
                    "when both branches of Await's select are ready Go may take either; the theorems speak of the case where "
-                   "the context ends before the completion or vice versa, and the harness never makes both ready at once",
-                   "data-race freedom is supported by the race detector runs (quick and thorough), not proved")
+                   "the context ends before the completion or vice versa, and the harness never makes both ready at once (free-running "
+                   "rounds end a waiter's context only once the runtime shows it parked in select after all mutators returned)",
+                   "data-race freedom is supported by race-detector runs of free-running goroutines in the quick and thorough tier, not proved")
     level_text = ("Machine-checked proof (Coq) over ARBITRARY action lists: the slot map equals a history specification (latest "
                   "Init/Clear, first Complete after it); a waiter's outcome equals the specified one whether completion precedes or "
                   "follows the wait (first_trace); Complete without an open slot changes nothing; Await without a slot fails at once; "
                   "a wait never outlives its context; the builder calls the collector at most once, exactly once iff named and "
-                  "finished/built, with the events up to the first finishing one, numbered per direction. The model is tied to "
-                  "tracer.go/builder.go by an exhaustive small-scope differential run on every check.")
+                  "finished/built, with the events up to the first finishing one and nothing after it, numbered per direction; the "
+                  "two-step builder (critical section, collector call after unlock) delivers the same under every schedule because "
+                  "the trace is cleared inside the lock. The model is tied to tracer.go/builder.go by an exhaustive small-scope "
+                  "differential run and by free-running goroutines whose observed outcomes must be the outcome of some interleaving "
+                  "(oracles proved exact), on every check.")
     level_note = ("Trusted: Coq kernel, extraction, OCaml driver, harness. Model-code correspondence is sampled (exhaustive to "
-                  "length 5/6), not proved. Go's mutex/channel/select semantics are assumed; data-race freedom is tested with "
-                  "-race, not proved; middleware.go's call sites (who adds which event) are exercised by the stress run only.")
-    technique = "Coq invariant proofs over arbitrary action lists (tracer slots/waiters, builder); exhaustive small-scope differential"
+                  "length 5/6 scripted; thousands of free-running rounds per check), not proved. Go's mutex/channel/select semantics "
+                  "are assumed; data-race freedom is tested with -race, not proved; middleware.go's call sites (who adds which event) "
+                  "are exercised by the thorough stress run only.")
+    technique = ("Coq invariant proofs over arbitrary action lists (tracer slots/waiters, builder, two-step builder refinement); exhaustive "
+                 "small-scope differential; free-running goroutines judged by a proved-exact interleaving oracle; race detector")
     go_timeout = 1500
 
     def nontrivial(self, case, res):
